@@ -1,7 +1,7 @@
 #!/bin/bash
 # tools/seed_eval.sh <PROP> <worktree> <demo-src-relative-to-seed> <demo-dest-relative-to-root> "<demo go test args>" [name]
 # 1. confirms the seeded change in the scratch worktree: builds, baseline suite passes, demo fails with it and passes without it
-# 2. applies it to /repo, runs ./check <PROP> quick, undoes it
+# 2. applies it to a scratch copy of /repo's working tree, runs the check for <PROP> on it, removes the copy
 # 3. files everything under /verif/seeded/<name>/
 set -u
 export GOFLAGS=-mod=mod GOPROXY=off GOSUMDB=off GOTOOLCHAIN=local
@@ -19,11 +19,11 @@ git apply -R seed/patch.diff
 if go test -vet=off -count=1 $democmd >>"$log" 2>&1; then echo "demo without change: passes (expected)" | tee -a "$log"; else echo "demo without change: FAILS (unexpected)" | tee -a "$log"; fi
 rm -f "$demodst"
 cp seed/patch.diff "$out/patch.diff"; cp "seed/$demosrc" "$out/"; cp seed/DEMO.md "$out/" 2>/dev/null; cp seed/meta.json "$out/agent_meta.json" 2>/dev/null
-# run the check against /repo with the change applied
-cd /repo || exit 2
-if [ -n "$(git status --porcelain)" ]; then echo "/repo has uncommitted changes; commit first"; exit 2; fi
-git apply "$out/patch.diff" || { echo "patch does not apply to /repo"; exit 2; }
-(cd /verif && ./bin/govc check -prop "$prop" -no-evidence -replay-dir "$out/replay" > "$out/check.log" 2>&1); rc=$?
-git checkout -- .
+# run the check against a scratch copy of /repo's working tree with the change applied (same engine, -repo <copy>)
+scratch=$(mktemp -d /tmp/govc-seed-XXXXXX)
+cp -r /repo/. "$scratch/"
+(cd "$scratch" && git apply "$out/patch.diff") || { echo "patch does not apply to /repo"; rm -rf "$scratch"; exit 2; }
+(cd /verif && ./bin/govc check -prop "$prop" -repo "$scratch" -no-evidence -replay-dir "$out/replay" > "$out/check.log" 2>&1); rc=$?
+rm -rf "$scratch"
 echo "check exit=$rc" | tee -a "$log"
 grep -E "^FAILED-OBLIGATION|^VIOLATION|^property=" "$out/check.log" | cut -c1-220 | head -8
